@@ -101,6 +101,10 @@ func (t *T) Me() *T {
 }
 
 // callees that keep the slice their surplus arguments were packed into
+func cnt(xs ...any) int {
+	return len(xs)*10 + len(fmt.Sprint(xs...))
+}
+
 func keep(xs ...int) []int {
 	return xs
 }
@@ -368,6 +372,9 @@ func c09GenCase(seed int64, idx int) packedCase {
 			fmt.Fprintf(&sb, "\tshow(%q, %s(%s))\n", tag, callee, args())
 		case k == 2 && len(rts) == 1 && (rts[0] == "int"):
 			fmt.Fprintf(&sb, "\tshow(%q, 1+%s(%s)*2, dbl(%s(%s)))\n", tag, callee, args(), callee, args())
+		case k == 8 && rng.Bool():
+			// the call as the post statement of a for loop: its results are dropped every time round
+			fmt.Fprintf(&sb, "\tn%d := 0\n\tfor q := 0; q < 2; %s(%s) {\n\t\tq++\n\t\tn%d += q\n\t}\n\tshow(%q, n%d)\n", f, callee, args(), f, tag, f)
 		case k == 3:
 			ns := resNames(fmt.Sprintf("w%d_", f))
 			fmt.Fprintf(&sb, "\t%s := %sw(%s)\n\tshow(%q, %s)\n", strings.Join(ns, ", "), id, args(), tag, reveal(ns))
@@ -430,6 +437,10 @@ func c09GenCase(seed int64, idx int) packedCase {
 		// a spread slice is passed through unchanged: the callee's writes to its elements are the caller's
 		fmt.Fprintf(&sb, "\tys := []int{1, 2, 3, 4}\n\tfill(%d, ys...)\n\tshow(ys)\n\to.A = 3\n\tshow(o.Scale(ys...), ys)\n\tsc := o.Scale\n\tshow(sc(ys[1:3]...), ys)\n\trelay(ys[2:]...)\n\tshow(ys)\n\tfill(9, 1, 2)\n", rng.Intn(9))
 		fmt.Fprintf(&sb, "\th := &H{O: o}\n\tshow(h.O.MV(5, xs...), gT.MV(6, xs...))\n\tvar none []int\n\tshow(o.MV(7, none...))\n")
+	}
+	if rng.Chance(1, 4) {
+		// one []any argument for a ...any parameter is one argument; spread, it is its elements
+		fmt.Fprintf(&sb, "\trow := []any{%d, \"two\", 3.5}\n\tvar norow []any\n\tshow(cnt(row), cnt(row...), cnt(row, row), cnt(norow), cnt(norow...), cnt(), cnt(%d, row))\n", rng.Intn(9), rng.Intn(9))
 	}
 	sb.WriteString("}\n")
 	return packedCase{ID: id, Decl: sb.String(), Call: fmt.Sprintf("\thdr(%q)\n\t%sd()\n", id, id)}
